@@ -22,6 +22,9 @@ CLAIMED = {
  "C16": ("each pod/set event handler on one event of every shape (owner x labels x resource version x deletion timestamp x tombstones) against the real lister: the enqueued keys are exactly those the statement lists; one worker step with an API failure at any call: AddRateLimited vs Forget, Done always", "5/C16"),
  "C17": ("the real Upgrade helper over fake clients for every selector shape / revision population / pre-existing Advanced object, interrupted by a failure (five kinds, incl. lost responses) or a crash at any API call and re-run: ordering of the built-in delete, orphan propagation, relabelling, no pod/claim call, same final state", "5/C17"),
  "C19": ("clauses (b) and (c): the annotation helpers as lossless codecs over sets of arbitrary int32 (round trip, union, removal, other annotations untouched, pause flag), and SetObjectDefaults_StatefulSet applied twice vs once on objects varied area by area over the modelled schema with arbitrary int32/int64 field values; clause (a) (hijack read-back) is not decided", "5/C19"),
+ "C02": ("bounded unrolling, stated as such: from every symbolic start snapshot within the bounds, rounds of {cache refresh, real sync(key), fair kubelet step} reach a fixed point within 3(N+R+K)+4 rounds; there the pods are exactly the desired ordinals, Ready, updated at/above the partition, status counters equal spec.replicas; two further reconciles issue no write", "5/C02"),
+ "C09": ("one sync(key) from a symbolic snapshot during which any one API call fails (up to six error kinds incl. lost responses) or the process dies at that call: unrecovered failures are reported as errors, the partial write log passes the C03/C04 monitors, and the fault-free loop of C02 afterwards reaches the same converged predicate", "5/C09"),
+ "C18": ("decided part only: three reconciles on the world the upgrade helper leaves behind find, label-sync and adopt the marker-carrying revisions, create no revision, delete no pod and resolve the update revision to the adopted one - under the stated assumption that the computed patch equals the recorded data", "5/C18"),
 }
 NA = {}
 def main():
